@@ -31,6 +31,8 @@ var c26PercentV = map[string]string{
 func c26(p *core.Program, r *core.Report) {
 	r.Rule("R1", "rune/byte offset typing: in the generated parser's Execute, token offsets (which index the []rune buffer) are never used to slice a string; the matched text is taken from the rune buffer")
 	r.Rule("R2", "forwardable-argument table: every static type stored into a call's argument map (parser actions and their helpers in package pql; executor rewrites in package pilosa) is printed by formatValue in a form the grammar re-reads as the same type: an explicit formatValue case, or one of the frozen types whose %v form is grammatical; formatValue's nil, list and float cases do not fall through to %v")
+	r.Rule("R4", "the grammar parses the text as given: wherever package pql sets PQL.Buffer, the value is the input converted to a string -- no function call rewrites the query text before parsing")
+	c26BufferUntouched(p, r)
 	r.Rule("R3", "quoting is the inverse of unquoting: the parser reads string literals with strconv.Unquote, so in package pql's printing code (everything outside the generated parser) a string is put between double quotes only by strconv.Quote or the %q verb; wrapping by hand (concatenation with a `\"` literal, or a format like \"%s\" with the quotes written out) is accepted only around time.Time.Format results")
 	c26Quoting(p, r)
 	r.NotDecided = "that the PEG grammar accepts exactly PQL; escape handling inside strconv.Unquote; numeric range handling; values nested inside lists"
